@@ -112,6 +112,20 @@ func c12Request(body string, peer, mask int, h [4]int) (r *http.Request) {
 	return r
 }
 
+// c12FixDefault is the code level of /repo that the model has as a switch: "0" =
+// the unchanged tree (known finding "uint32 session horizon"), "1" = with
+// /verif/fixes/c12/session_expiry_serial_compare.patch.  It is sent with every
+// reset line; C12_FIX overrides it for a scratch tree.
+const c12FixDefault = "0"
+
+func c12Fix() string {
+	if v := os.Getenv("C12_FIX"); v == "0" || v == "1" {
+		return v
+	}
+
+	return c12FixDefault
+}
+
 const c12NoCookie = "00000000000000000000000000000000"
 
 // c12Block is the state of one block, living inside the bubble.
@@ -187,7 +201,12 @@ func (b *c12Block) dump() (out []string) {
 	a.lock.Unlock()
 	emit("M", mem)
 
-	var db []row
+	// the bucket: raw record bytes
+	type rawRow struct {
+		id  int
+		val string
+	}
+	var db []rawRow
 	_ = a.db.View(func(tx *bbolt.Tx) error {
 		bkt := tx.Bucket(bucketName())
 		if bkt == nil {
@@ -195,17 +214,20 @@ func (b *c12Block) dump() (out []string) {
 		}
 
 		return bkt.ForEach(func(k, v []byte) error {
-			s := session{}
 			id, ok := b.tokIDs[fmt.Sprintf("%x", k)]
-			if !ok || !s.deserialize(v) {
+			if !ok {
 				id = -1
 			}
-			db = append(db, row{id, s.expire, user(s.userName)})
+			db = append(db, rawRow{id, vutil.Hex(string(v))})
 
 			return nil
 		})
 	})
-	emit("D", db)
+	slices.SortFunc(db, func(x, y rawRow) int { return x.id - y.id })
+	out = append(out, "D", vutil.Itoa(len(db)))
+	for _, r := range db {
+		out = append(out, vutil.Itoa(r.id), r.val)
+	}
 
 	return out
 }
@@ -262,6 +284,21 @@ func (b *c12Block) exec(f []string) (out []string) {
 		handleLogout(httptest.NewRecorder(), r)
 
 		return append([]string{"ok"}, b.dump()...)
+	case "C12.basic":
+		// a request without a cookie carrying HTTP Basic credentials
+		peer, user, good := vutil.Atoi(f[1]), vutil.Atoi(f[3]), f[4] == "1"
+		called := false
+		h := optionalAuth(func(http.ResponseWriter, *http.Request) { called = true })
+		r := httptest.NewRequest(http.MethodGet, "/control/status", nil)
+		r.RemoteAddr = c12Peers[peer]
+		pass := fmt.Sprintf("pass%d", user)
+		if !good {
+			pass = "wrong"
+		}
+		r.SetBasicAuth(fmt.Sprintf("u%d", user), pass)
+		h(httptest.NewRecorder(), r)
+
+		return append([]string{vutil.B(called)}, b.dump()...)
 	case "C12.loginlock":
 		// fact: is controlLock held while the registered login handler
 		// evaluates the password?  (findUser needs a.lock, held here)
@@ -448,6 +485,86 @@ func c12Burst(peer, k int) (codes []int) {
 	return codes
 }
 
+// c12CallOrder extracts two call-order facts from the sources: in handleLogin
+// the limiter is asked (and its verdict returned on) before newCookie, the only
+// call that evaluates the password; in newCookie the session is stored
+// (addSession: map + file) before the cookie is built and returned.
+func c12CallOrder() string {
+	pos := func(file, fn string, match func(ast.Node) bool) (first token.Pos) {
+		fset := token.NewFileSet()
+		f, err := parser.ParseFile(fset, file, nil, 0)
+		if err != nil {
+			return token.NoPos
+		}
+		for _, d := range f.Decls {
+			fd, ok := d.(*ast.FuncDecl)
+			if !ok || fd.Name.Name != fn || fd.Body == nil {
+				continue
+			}
+			ast.Inspect(fd.Body, func(n ast.Node) bool {
+				if n != nil && first == token.NoPos && match(n) {
+					first = n.Pos()
+				}
+
+				return true
+			})
+		}
+
+		return first
+	}
+	call := func(name string) func(ast.Node) bool {
+		return func(n ast.Node) bool {
+			c, ok := n.(*ast.CallExpr)
+			if !ok {
+				return false
+			}
+			sel, ok := c.Fun.(*ast.SelectorExpr)
+
+			return ok && sel.Sel.Name == name
+		}
+	}
+	// the "if left := rateLimiter.check(...); left > 0 { ...; return }" statement
+	gate := pos("authhttp.go", "handleLogin", func(n ast.Node) bool {
+		st, ok := n.(*ast.IfStmt)
+		if !ok || st.Init == nil {
+			return false
+		}
+		hasCheck, hasReturn := false, false
+		ast.Inspect(st.Init, func(m ast.Node) bool { hasCheck = hasCheck || (m != nil && call("check")(m)); return true })
+		ast.Inspect(st.Body, func(m ast.Node) bool { _, r := m.(*ast.ReturnStmt); hasReturn = hasReturn || r; return true })
+
+		return hasCheck && hasReturn
+	})
+	eval := pos("authhttp.go", "handleLogin", func(n ast.Node) bool {
+		return call("newCookie")(n) || call("findUser")(n) || call("CompareHashAndPassword")(n)
+	})
+	store := pos("authhttp.go", "newCookie", call("addSession"))
+	cookie := pos("authhttp.go", "newCookie", func(n ast.Node) bool {
+		cl, ok := n.(*ast.CompositeLit)
+		if !ok {
+			return false
+		}
+		sel, ok := cl.Type.(*ast.SelectorExpr)
+
+		return ok && sel.Sel.Name == "Cookie"
+	})
+	a, bb := "check?newCookie", "addSession?cookie"
+	if gate != token.NoPos && eval != token.NoPos {
+		a = "newCookie<check"
+		if gate < eval {
+			a = "check<newCookie"
+		}
+	}
+	if store != token.NoPos && cookie != token.NoPos {
+		bb = "cookie<addSession"
+		if store < cookie {
+			bb = "addSession<cookie"
+		}
+	}
+
+	return a + ";" + bb
+}
+
 // c12LogoutOrder extracts from the source of removeSession whether the map
 // entry is deleted before the file entry.
 func c12LogoutOrder() string {
@@ -551,6 +668,9 @@ func c12Run(f []string) []string {
 	if f[0] == "C12.logoutorder" {
 		return []string{c12LogoutOrder()}
 	}
+	if f[0] == "C12.callorder" {
+		return []string{c12CallOrder()}
+	}
 	if f[0] == "C12.reset" {
 		c12EndBlock()
 		c12Cmds, c12Done = make(chan c12Cmd), make(chan struct{})
@@ -570,7 +690,8 @@ func c12Gen(r *rand.Rand, emit vutil.Emit) {
 	blocks := vutil.N(300)
 	const sec = 1_000_000_000
 	emit("C12.logoutorder")
-	emit("C12.reset", "5", "15", "3600", "0")
+	emit("C12.callorder")
+	emit("C12.reset", "5", "15", "3600", "0", c12Fix())
 	emit("C12.loginlock")
 	for b := 0; b < blocks; b++ {
 		ma := 1 + r.IntN(5)
@@ -584,7 +705,7 @@ func c12Gen(r *rand.Rand, emit vutil.Emit) {
 		}
 		ttl := vutil.Pick(r, []int{0, 1, 90, 3600, 3600, 86400, 90000, 2592000})
 		tp := vutil.Pick(r, []int{0, 0, 1, 1, 2})
-		emit("C12.reset", vutil.Itoa(ma), vutil.Itoa(bm), vutil.Itoa(ttl), vutil.Itoa(tp))
+		emit("C12.reset", vutil.Itoa(ma), vutil.Itoa(bm), vutil.Itoa(ttl), vutil.Itoa(tp), c12Fix())
 		var prefixes []netip.Prefix
 		for _, p := range c12Trusted[tp] {
 			prefixes = append(prefixes, netip.MustParsePrefix(p))
@@ -750,6 +871,14 @@ func c12Gen(r *rand.Rand, emit vutil.Emit) {
 							addr = r.IntN(len(c12Peers))
 						}
 						login(addr, r.IntN(100) < 22, r.IntN(4))
+					case k < 50:
+						// HTTP Basic credentials instead of a cookie
+						p := hot
+						if r.IntN(3) == 0 {
+							p = r.IntN(len(c12Peers))
+						}
+						emit("C12.basic", vutil.Itoa(p), vutil.Itoa(c12PeerKey(p)), vutil.Itoa(r.IntN(2)),
+							vutil.B(r.IntN(3) == 0), vutil.B(strings.Contains(extra, "basic")))
 					case k < 62:
 						emit("C12.req", vutil.Itoa(r.IntN(5)))
 					case k < 68:
